@@ -41,8 +41,9 @@ SsProj(p) ==
    acts |-> {LET a == p.acts[i] IN <<a.ty, a.id, SsSet(a.principals), SsSet(a.resources), SsNormT(a.context),
                                      {<<a.desc[j][1], a.desc[j][2]>> : j \in 1..Len(a.desc)}>> : i \in 1..Len(p.acts)}]
 
-\* what the Cedar syntax can say about a reference: every type reference admits both kinds,
-\* a context written as a bare name admits common types only
+\* what the Cedar syntax can say: every type reference admits both kinds, a context written as a bare name
+\* admits common types only, an appliesTo has a non-empty principal and a non-empty resource list (an action
+\* with one of them empty can only be written as an action without appliesTo)
 RECURSIVE SsEraseT(_)
 SsEraseT(t) ==
   CASE t[1] = "Ref" -> <<"Ref", "eoc", t[3], t[4]>>
@@ -54,7 +55,11 @@ SsErase(s) ==
      [cts |-> [b \in DOMAIN s[ns].cts |-> SsEraseT(s[ns].cts[b])],
       ets |-> [b \in DOMAIN s[ns].ets |-> [s[ns].ets[b] EXCEPT !.attrs = [k \in DOMAIN @ |-> <<SsEraseT(@[k][1]), @[k][2]>>],
                                                               !.tags = IF @ = <<"none">> THEN @ ELSE SsEraseT(@)]],
-      acts |-> [id \in DOMAIN s[ns].acts |-> [s[ns].acts[id] EXCEPT !.context = IF @[1] = "Ref" THEN <<"Ref", "common", @[3], @[4]>> ELSE SsEraseT(@)]]]]
+      acts |-> [id \in DOMAIN s[ns].acts |->
+                 LET a == s[ns].acts[id]
+                 IN IF a.applies /\ (a.principals = {} \/ a.resources = {})
+                    THEN [a EXCEPT !.applies = FALSE, !.principals = {}, !.resources = {}, !.context = <<"Record", <<>>>>]
+                    ELSE [a EXCEPT !.context = IF @[1] = "Ref" THEN <<"Ref", "common", @[3], @[4]>> ELSE SsEraseT(@)]]]]
 
 Has(ev, k) == k \in DOMAIN ev.steps
 Loaded(ev, k) == Has(ev, k) /\ ev.steps[k][1] = "ok"
@@ -81,9 +86,10 @@ Core(ev, withJC) ==
      /\ \A k \in {"CJ", "CC", "CR"} : Has(ev, k) => TranslOk(ev, k, "C")
      /\ \A k \in DOMAIN ev.lib_eq : (withJC \/ k # "J=JC") => ev.lib_eq[k]
 
-\* Known-finding class "printer erases the reference kind": the JSON syntax restricts a reference to
-\* entity types ({"type":"Entity"}) or to common types ({"type": name}); to_cedarschema prints the bare
-\* name, which admits both, so the printed schema denotes ScResolve(SsErase(s)) instead of ScResolve(s).
+\* Known-finding class "to_cedarschema is silently lossy": the JSON syntax can restrict a reference to
+\* entity types ({"type":"Entity"}) or to common types ({"type": name}) and can give an action an appliesTo
+\* with one empty list; to_cedarschema prints the bare name (admits both kinds) resp. no appliesTo at all,
+\* without reporting an error, so the printed schema denotes ScResolve(SsErase(s)) instead of ScResolve(s).
 IsKnownFinding(ev) ==
   /\ ev.ev = "SchemaSyn" /\ ~Core(ev, TRUE) /\ Core(ev, FALSE)
   /\ LET s == SsFromWire(ev.s)
